@@ -403,6 +403,7 @@ func levelsGen(r *rand.Rand, n int, small bool) []Case {
 				return ts - 1
 			}
 			rounds := 2 + r.Intn(2)
+			preGet := r.Intn(2) == 0
 			// variant: the last table of every round holds one user of its own, the tables before it hold the others — the
 			// first lookup after the reuse then goes straight to the last-named table (the bloom filters skip the rest)
 			for rd := 0; rd < rounds; rd++ {
@@ -418,6 +419,12 @@ func levelsGen(r *rand.Rand, n int, small bool) []Case {
 					ops = append(ops, "flush "+sortedEntries(pairs))
 				}
 				if rd < rounds-1 {
+					if preGet && rd == 0 {
+						// one point lookup right before the compaction: in the split variant it ends in the last-named table of the
+						// round (the only one whose filter admits the user), so whatever a lookup remembers about a table by its
+						// name or handle is about a file the compaction is going to delete and the next round re-creates
+						ops = append(ops, fmt.Sprintf("get %s 99", hxs(users[0])))
+					}
 					ops = append(ops, "compact")
 				}
 			}
